@@ -464,7 +464,7 @@ func (c *Ctx) rulesR5filt() {
 	var fd *ast.FuncDecl
 	for _, f := range p.Syntax {
 		for _, d := range f.Decls {
-			if x, ok := d.(*ast.FuncDecl); ok && x.Name.Name == "hFilterTx" && x.Body != nil {
+			if x, ok := d.(*ast.FuncDecl); ok && strings.EqualFold(strings.TrimPrefix(x.Name.Name, "h"), "filterTx") && x.Body != nil {
 				fd = x
 			}
 		}
